@@ -371,3 +371,26 @@ def check_cases(rep, cases, wd, name="cases", jobs=None, timeout=20, keyfn=None,
             key = c.get("key") or (keyfn(c, o, mism) if keyfn else "%s|%s" % (rep.prop, c["id"]))
             rep.finding(key, c, o, mism, what)
     return obs
+
+
+def decode_segments(case):
+    """transport only: text that contains non-ASCII characters leaves TLC as a list of segments
+    {"s": ascii} / {"cp": [code points]}; concatenate them into ordinary strings (files_seg -> files,
+    expect_seg.<field> -> expect.<field>)."""
+    def cat(segs):
+        out = []
+        for s in segs:
+            if "s" in s:
+                out.append(s["s"])
+            else:
+                out.append("".join(chr(c) for c in s["cp"]))
+        return "".join(out)
+    c = dict(case)
+    if "files_seg" in c:
+        c["files"] = {k: cat(v) for k, v in c.pop("files_seg").items()}
+    if "expect_seg" in c:
+        e = dict(c.get("expect", {}))
+        for k, v in c.pop("expect_seg").items():
+            e[k] = cat(v)
+        c["expect"] = e
+    return c
